@@ -120,7 +120,13 @@ def cross_kind(rng, v):
     """perturbations to another kind: only 'never raises' (and agreement with the model) is demanded"""
     k = kind(v)
     cands = [5, 2.5, True, 'ab', [1, 2], ['a'], [], (1,), 'abc']
-    return [c for c in cands if kind(c) != k][:4]
+    out = [c for c in cands if kind(c) != k][:4]
+    # a sequence of the SAME length but of the other element kind (numbers stored / strings queried and the reverse)
+    if k == 'numlist' and len(v) > 0:
+        out += [[STRS[1 + i % (len(STRS) - 1)] for i in range(len(v))]]
+    elif k == 'strlist' and len(v) > 0:
+        out += [[i + 1 for i in range(len(v))], [0.5] * len(v)]
+    return out
 
 
 def snapshot(obj):
